@@ -157,7 +157,7 @@ fn native_returns(bin: &std::path::Path, cases: &[CaseRec], tag: &str, secs: u64
         .arg(&corpus)
         .stdout(std::process::Stdio::null())
         .stderr(std::process::Stdio::piped())
-        .spawn()
+        .spawn_dwp()
         .map_err(|e| e.to_string());
     let res = match child {
         Ok(c) => wait_budget(c, secs).map(|o| o.is_some()),
@@ -179,7 +179,7 @@ fn memcheck_run(bin: &std::path::Path, cases: &[CaseRec], tag: &str) -> Result<(
         .arg(&corpus)
         .stdout(std::process::Stdio::null())
         .stderr(std::process::Stdio::piped())
-        .spawn()
+        .spawn_dwp()
         .map_err(|e| e.to_string());
     let out = match child {
         Ok(c) => wait_budget(c, crate::engine::env_u64("VERIF_MEMCHECK_BUDGET_S", 1800)),
@@ -516,4 +516,13 @@ pub fn run(r: &Runner) {
         });
     }
     set_backend(0);
+}
+
+trait SpawnDwp {
+    fn spawn_dwp(&mut self) -> std::io::Result<std::process::Child>;
+}
+impl SpawnDwp for std::process::Command {
+    fn spawn_dwp(&mut self) -> std::io::Result<std::process::Child> {
+        crate::engine::die_with_parent(self).spawn()
+    }
 }
